@@ -962,7 +962,9 @@ def decide_loc(chk, case, res, ver, cands_all):
     info = {"case": case, "locations": res["where"],
             "observed": [{"rc": s["rc"], "out": s["out"][:200], "state": s["state"], "bytes_same": s["bytes_same"]} for s in res["steps"]]}
     if res["uncontrolled"]:
-        chk.notes.append(f"loc stream: a system-wide configuration file exists ({res['uncontrolled']}); default-location histories are judged by the Python oracle only")
+        note = f"loc stream: a system-wide configuration file exists ({res['uncontrolled']}); default-location histories are judged by the Python oracle only"
+        if note not in chk.notes:
+            chk.notes.append(note)
     if ver is not None and not bool(ver[3][0]):
         ver = None
     if ver is None:
